@@ -6,6 +6,7 @@
 import Proofs.StepToks
 import Proofs.Undo
 import Proofs.UndoForward
+import Proofs.FlatInsertCore
 namespace PM
 
 /-- a range whose tokens never dip below their starting level and end on it is cut as a closed slice -/
@@ -52,7 +53,8 @@ theorem reinsert_gap_eq (S : Schema) (old rem x : Slice) (d g : Nat) (G : List N
       simp at hrm; subst hrm
       obtain ⟨htk1, _⟩ := removeRange_toks old.content old.content _ _ 0 _ _ [] c1 rfl rfl (by simp)
         (by simp) (by omega) hc1
-      unfold Slice.insertAt at hx
+      rw [insertAt_of_le (insertAt_ok hx).1] at hx
+      unfold Slice.insertAtIn at hx
       simp only at hx
       split at hx
       · rename_i c2 hc2
